@@ -229,7 +229,7 @@ func checkWCNF(c Case, o *vf.Obs) error {
 		}
 		return nil
 	}
-	s1, err := maxsat.ParseWCNF(strings.NewReader(txt))
+	s1, err := maxsat.ParseWCNF(texts.ReaderFor(txt))
 	if err != nil {
 		return fmt.Errorf("ParseWCNF rejects a well-formed text: %v\n%s", err, txt)
 	}
